@@ -83,22 +83,18 @@ where
 }
 
 impl Inflection {
-    pub fn apply(self, string: &str) -> String {
+    /// Applies this rule to the name of an enum variant, which is expected to be in `PascalCase`.
+    /// This mirrors `RenameRule::apply_to_variant` of `serde_derive`.
+    pub fn apply_to_variant(self, variant: &str) -> String {
         match self {
-            Inflection::Lower => string.to_lowercase(),
-            Inflection::Upper => string.to_uppercase(),
-            Inflection::Camel => {
-                let pascal = Inflection::apply(Inflection::Pascal, string);
-                let mut chars = pascal.chars();
-                match chars.next() {
-                    Some(first) => first.to_ascii_lowercase().to_string() + chars.as_str(),
-                    None => pascal,
-                }
-            }
+            Inflection::Pascal => variant.to_owned(),
+            Inflection::Lower => variant.to_ascii_lowercase(),
+            Inflection::Upper => variant.to_ascii_uppercase(),
+            Inflection::Camel => lowercase_first_char(variant.to_owned()),
             Inflection::Snake => {
                 let mut s = String::new();
 
-                for (i, ch) in string.char_indices() {
+                for (i, ch) in variant.char_indices() {
                     if ch.is_uppercase() && i != 0 {
                         s.push('_');
                     }
@@ -107,11 +103,28 @@ impl Inflection {
 
                 s
             }
+            Inflection::ScreamingSnake => Self::Snake
+                .apply_to_variant(variant)
+                .to_ascii_uppercase(),
+            Inflection::Kebab => Self::Snake.apply_to_variant(variant).replace('_', "-"),
+            Inflection::ScreamingKebab => Self::ScreamingSnake
+                .apply_to_variant(variant)
+                .replace('_', "-"),
+        }
+    }
+
+    /// Applies this rule to the name of a field, which is expected to be in `snake_case`.
+    /// This mirrors `RenameRule::apply_to_field` of `serde_derive`.
+    pub fn apply_to_field(self, field: &str) -> String {
+        match self {
+            Inflection::Lower | Inflection::Snake => field.to_owned(),
+            Inflection::Upper | Inflection::ScreamingSnake => field.to_ascii_uppercase(),
+            Inflection::Camel => lowercase_first_char(Self::Pascal.apply_to_field(field)),
             Inflection::Pascal => {
-                let mut s = String::with_capacity(string.len());
+                let mut s = String::with_capacity(field.len());
 
                 let mut capitalize = true;
-                for c in string.chars() {
+                for c in field.chars() {
                     if c == '_' {
                         capitalize = true;
                         continue;
@@ -125,10 +138,19 @@ impl Inflection {
 
                 s
             }
-            Inflection::ScreamingSnake => Self::Snake.apply(string).to_ascii_uppercase(),
-            Inflection::Kebab => Self::Snake.apply(string).replace('_', "-"),
-            Inflection::ScreamingKebab => Self::Kebab.apply(string).to_ascii_uppercase(),
+            Inflection::Kebab => field.replace('_', "-"),
+            Inflection::ScreamingKebab => Self::ScreamingSnake
+                .apply_to_field(field)
+                .replace('_', "-"),
         }
+    }
+}
+
+fn lowercase_first_char(string: String) -> String {
+    let mut chars = string.chars();
+    match chars.next() {
+        Some(first) => first.to_ascii_lowercase().to_string() + chars.as_str(),
+        None => string,
     }
 }
 
